@@ -171,10 +171,7 @@ Record world := {
   w_cwd : path;
   w_libs : list (list comp);
   w_blobs : list (N * blob);
-  w_faults : list N;           (* resolver calls (0-based, resolve and load counted together) that fail *)
-  w_cache_field_errors : bool  (* true = the code as it is (obj/mod.rs caches Err results of fields);
-                                  false = the repaired behaviour, used only to classify the known
-                                  finding C07-field-error-cached *)
+  w_faults : list N            (* resolver calls (0-based, resolve and load counted together) that fail *)
 }.
 
 Definition no_blob : blob := {| bl_utf8 := true; bl_chars := 0; bl_bytes := 0; bl_body := None |}.
@@ -239,17 +236,16 @@ Definition bump (st : state) : state :=
 Definition set_entry (c : path) (en : entry) (st : state) : state :=
   {| s_cache := fun c' => if path_eqb c c' then Some en else s_cache st c';
      s_fields := s_fields st; s_log := s_log st; s_calls := s_calls st |}.
-Definition put_field (c : path) (k : nat) (x : option fcell) (st : state) : state :=
+Definition set_field (c : path) (k : nat) (x : fcell) (st : state) : state :=
   {| s_cache := s_cache st;
-     s_fields := fun c' k' => if path_eqb c c' && Nat.eqb k k' then x else s_fields st c' k';
+     s_fields := fun c' k' => if path_eqb c c' && Nat.eqb k k' then Some x else s_fields st c' k';
      s_log := s_log st; s_calls := s_calls st |}.
-Definition set_field (c : path) (k : nat) (x : fcell) (st : state) : state := put_field c k (Some x) st.
-(** what get_idx leaves in the field cache once the field's expression has been evaluated *)
-Definition field_after (w : world) (r : res N) : option fcell :=
-  match r with
-  | Ok _ => Some (FDone r)
-  | Err _ => if w_cache_field_errors w then Some (FDone r) else None
-  end.
+(** drop the cached *errors* of lazy fields (used only to classify the known finding
+    C07-field-error-cached: what the operation would answer had those errors not been kept) *)
+Definition scrub (st : state) : state :=
+  {| s_cache := s_cache st;
+     s_fields := fun c k => match s_fields st c k with Some (FDone (Err _)) => None | x => x end;
+     s_log := s_log st; s_calls := s_calls st |}.
 
 Definition fault (w : world) (k : N) : bool := existsb (N.eqb k) (w_faults w).
 
@@ -386,7 +382,7 @@ Fixpoint run (w : world) (fuel : nat) (k : task) (st : state) : res N * state :=
         | Some (id, ts) =>
           let st1 := add_log (EvLazy c id j) (set_field c j FPending st) in
           let '(r, st2) := run w f (KSum (SFile c) ts 0) st1 in
-          (r, put_field c j (field_after w r) st2)   (* Cached(result): errors are cached too *)
+          (r, set_field c j (FDone r) st2)       (* Cached(result): errors are cached too *)
         end
       end
     | KTerm from t =>
@@ -468,19 +464,23 @@ Fixpoint run_hist (w : world) (fuel : nat) (h : list op) (st : state) : list ova
     operation, the result the same operation has in a fresh state of the fault-free world
     (the SPEC-level expectation for every operation during which no fault fires). *)
 Definition with_faults (w : world) (fl : list N) : world :=
-  {| w_fs := w_fs w; w_cwd := w_cwd w; w_libs := w_libs w; w_blobs := w_blobs w; w_faults := fl;
-     w_cache_field_errors := w_cache_field_errors w |}.
+  {| w_fs := w_fs w; w_cwd := w_cwd w; w_libs := w_libs w; w_blobs := w_blobs w; w_faults := fl |}.
 Definition no_faults (w : world) : world := with_faults w [].
-Definition repaired (w : world) : world :=
-  {| w_fs := w_fs w; w_cwd := w_cwd w; w_libs := w_libs w; w_blobs := w_blobs w; w_faults := w_faults w;
-     w_cache_field_errors := false |}.
+(** per operation: its answer from the state it actually ran in, with cached field errors
+    dropped and no fault *)
+Fixpoint scrubbed_results (w : world) (fuel : nat) (h : list op) (st : state) : list oval :=
+  match h with
+  | [] => []
+  | o :: rest =>
+    fst (run_op (no_faults w) fuel o (scrub st)) :: scrubbed_results w fuel rest (snd (run_op w fuel o st))
+  end.
 
 Definition fresh_result (w : world) (fuel : nat) (o : op) : oval :=
   fst (run_op (no_faults w) fuel o init).
 
 Definition run_case (w : world) (fuel : nat) (h : list op) :=
   let '(vs, st) := run_hist w fuel h init in
-  (vs, rev (s_log st), map (fresh_result w fuel) h, fst (run_hist (repaired w) fuel h init), s_calls st).
+  (vs, rev (s_log st), map (fresh_result w fuel) h, scrubbed_results w fuel h init, s_calls st).
 
 Definition run_variants (w : world) (fuel : nat) (h : list op) (fls : list (list N)) :=
   map (fun fl => run_case (with_faults w fl) fuel h) fls.
